@@ -79,6 +79,12 @@ finally:
             keep = cur + [m for m in keep if m['name'] not in names]
         json.dump(keep, open(dst, 'w'), indent=1, ensure_ascii=False)
         mp = os.path.join(extra_dir, pid + '.missed.json')
+        if '--append' in sys.argv:
+            mp2 = os.path.join(extra_dir, pid + '.missed2.json')
+            if missed:
+                json.dump(missed, open(mp2, 'w'), indent=1, ensure_ascii=False)
+            elif os.path.exists(mp2):
+                os.remove(mp2)
         if '--append' not in sys.argv:
             if missed:
                 json.dump(missed, open(mp, 'w'), indent=1, ensure_ascii=False)
